@@ -179,7 +179,7 @@ def stepUser (s : Sys) (t : Tid) (pc : UPc) (todo : List Op) : Option Sys :=
     some { s with log := s.log ++ [(t, .chk s.queue.length)], thr := upd s t (.user pc') todo }
   | .dPop c =>
     match s.queue with
-    | [] => none   -- unreachable (`popleft` on an empty deque), see `WInv.pop_ok`
+    | [] => none   -- `popleft` on an empty deque: proved unreachable (`WireInv.pop_ok`)
     | q :: rest =>
       some { s with queue := rest,
                     log := s.log ++ [(t, .pop q)], thr := upd s t (.user (.dSnd0 c q)) todo }
@@ -187,7 +187,7 @@ def stepUser (s : Sys) (t : Tid) (pc : UPc) (todo : List Op) : Option Sys :=
     if s.sockOpen then
       some { s with wire := s.wire ++ [(q, 0)],
                     log := s.log ++ [(t, .snd q 0)], thr := upd s t (.user (.dSnd1 c q)) todo }
-    else  -- unreachable: the flush only runs while the socket is open
+    else  -- proved unreachable (`C12.fail_only_forced_write`): the flush needs an open socket
       some { s with failed := s.failed ++ [q],
                     log := s.log ++ [(t, .fail)], thr := upd s t (.user (.dRel c)) todo }
   | .dSnd1 c q =>
@@ -226,7 +226,7 @@ def stepNet (cfg : Cfg) (s : Sys) (t : Tid) (pc : NPc) (n : Nat) (todo : List Op
     some { s with log := s.log ++ [(t, .chk s.queue.length)], thr := upd s t (.net pc' n) todo }
   | .wPop =>
     match s.queue with
-    | [] => none   -- unreachable, see `WInv.pop_ok`
+    | [] => none   -- proved unreachable (`WireInv.pop_ok`)
     | q :: rest =>
       some { s with queue := rest,
                     log := s.log ++ [(t, .pop q)], thr := upd s t (.net (.wSnd0 q) n) todo }
@@ -234,7 +234,7 @@ def stepNet (cfg : Cfg) (s : Sys) (t : Tid) (pc : NPc) (n : Nat) (todo : List Op
     if s.sockOpen then
       some { s with wire := s.wire ++ [(q, 0)],
                     log := s.log ++ [(t, .snd q 0)], thr := upd s t (.net (.wSnd1 q) n) todo }
-    else  -- AttributeError (not an IOError): propagates out of `_run`
+    else  -- proved unreachable (`C12.fail_only_forced_write`); AttributeError ≠ IOError: leaves `_run`
       some { s with failed := s.failed ++ [q],
                     log := s.log ++ [(t, .fail)], thr := upd s t (.net .xRel n) todo }
   | .wSnd1 q =>   -- `num_packets += 1; if num_packets >= 300: break`
